@@ -11,12 +11,16 @@ RULE = ("round: exhaustive ciphertexts of length 0..8 over {00,ff,'a'} (quick: 0
         "random beyond; mask: all 1- and 2-bit flips of envelopes <= 24 bytes (quick: sampled 2-bit), sampled 3-bit, "
         "all byte-aligned 4-byte windows with random content, random <=32-bit bursts incl. boundary-straddling; "
         "trunc: every truncation; forge: magic/version edits with a valid CRC; dec: malformed base64 / random "
-        "strings.  non-trivial = mask non-zero / non-empty input; distinct by case content")
+        "strings.  Every text is also taken through eval.DecryptSecrets (document) and the evaluator's fn::secret "
+        "with a recording decrypter - it must receive exactly the decoder's payload, and nothing for a rejected "
+        "text - and the decoder's result is re-read after two unrelated decodes (the caller owns it).  "
+        "non-trivial = mask non-zero / non-empty input; distinct by case content")
 ASSUMPTIONS = ["corruptions are applied to the binary envelope (before base64); bursts are measured in CRC "
                "transmission order (bit j of byte i is position 8i+j); any change confined to 4 consecutive bytes "
                "is such a burst",
-               "the decrypter sees exactly what decodeCiphertext returns (decode-before-decrypt is read off "
-               "eval.go/crypt.go, exercised by the C04 document-level check)"]
+               "the decrypter sees exactly what decodeCiphertext returns: proved of the model's evaluator "
+               "(Properties/C11_decrypt.v) and observed per case on both public entry points (texts with bytes outside "
+               "printable ASCII are not embedded in a document: flag 'skip')"]
 TRUSTED = ["base64/CRC of the Python generator only shape inputs; the expected corrupted representation is "
            "recomputed inside Coq and compared"]
 
@@ -175,7 +179,22 @@ def prepare(c):
     return {"op": "dec", "repr": c["repr"]}
 
 
+def _flag(v):
+    return v if v in ("same", "skip") else "differs"
+
+
 def line(c, o):
+    core = core_line(c, o)
+    if core is None:
+        return None
+    d = o["dec"] if "dec" in o else o
+    if "panic" in d or "crash" in d:
+        return "(c11 %s same skip skip)" % core
+    retained = "same" if d.get("res") != "ok" or d.get("first") == d.get("ct") else "differs"
+    return "(c11 %s %s %s %s)" % (core, retained, _flag(d.get("doc")), _flag(d.get("eval")))
+
+
+def core_line(c, o):
     op = c["op"]
     X = lambda h: "x" + h
     if op == "round":
